@@ -46,6 +46,22 @@ func gen(tier string, r *lib.Rand, emit func(string)) {
 		emit(alloclib.AllocCase(wide(ws), good[0]))
 	}
 
+	// (b'') histories: the same program object allocated several times under different naming
+	// configurations, and clones of it (the bound must hold after every run, not only the first)
+	hk := 0
+	for i := 0; i < nrand/10; i++ {
+		p := alloclib.RandomProgram(r, r.Range(2, 14), 0)
+		h := alloclib.Histories[hk%len(alloclib.Histories)]
+		emit(alloclib.HistoryCase(p, good[hk%len(good)], good[(hk+3)%len(good)], h))
+		hk++
+	}
+	for _, ws := range [][]int{{3, 3}, {5, 4, 5}} {
+		for _, h := range alloclib.Histories {
+			emit(alloclib.HistoryCase(wide(ws), good[hk%len(good)], good[(hk+1)%len(good)], h))
+			hk++
+		}
+	}
+
 	// (c) outside the domain: dead values, ill-formed programs
 	for i := 0; i < nrand/3; i++ {
 		p := alloclib.RandomProgram(r, r.Range(1, maxlen), []int{10, 30, 60}[r.Intn(3)])
@@ -84,7 +100,12 @@ func wide(widths []int) alloclib.Prog {
 	return p
 }
 
-func oracle(c, res string) string { return alloclib.CheckAllocation(c, res, true) }
+func oracle(c, res string) string {
+	if strings.HasPrefix(c, "history ") {
+		return alloclib.CheckHistory(c, res)
+	}
+	return alloclib.CheckAllocation(c, res, true)
+}
 
 func nontrivial(c, res string) bool {
 	f := strings.Split(c, " ")
